@@ -53,3 +53,12 @@
 ; ghost contents of sync.Map objects (keys: content order of the string key)
 ;@ghost smhas (Array Int (Array Real Bool))
 ;@ghost smval (Array Int (Array Real Int))
+; big-endian fixed-width integers: a function of the bytes they occupy
+(declare-fun f8 (Int Int Int Int Int Int Int Int) Int)
+(declare-fun f4 (Int Int Int Int) Int)
+(define-fun be64 ((r (Array Int Int)) (o Int)) Int
+  (f8 (select r o) (select r (+ o 1)) (select r (+ o 2)) (select r (+ o 3)) (select r (+ o 4)) (select r (+ o 5)) (select r (+ o 6)) (select r (+ o 7))))
+(define-fun be32 ((r (Array Int Int)) (o Int)) Int
+  (f4 (select r o) (select r (+ o 1)) (select r (+ o 2)) (select r (+ o 3))))
+;@specfn be64 : (Array Int Int) Int -> Int
+;@specfn be32 : (Array Int Int) Int -> Int
